@@ -1235,7 +1235,8 @@ def classify(case, label, detail):
     if d.get("return_early") and (d.get("worker_errors") or d.get("real_pool_and_sequential_raises")) and (
             (label == "threads-differ-from-sequential" and d.get("differs") == "outcome" and d.get("swallowed"))
             or label in ("returns-normally-with-a-file-missing", "worker-exception-unreported")):
-        # TensorDictFuture.result() waits for the futures it was given and never looks at their outcome
+        # TensorDictFuture.result() waits for the futures it was given and never looks at their outcome (D110, repaired:
+        # no known-finding entry carries this pattern any more, a recurrence is a violation)
         return "worker-exception-swallowed-by-TensorDictFuture.result"
     if label == "threads-differ-from-sequential" and d.get("differs") == "outcome" and d.get("swallowed"):
         return "worker-exception-swallowed"
@@ -2237,13 +2238,13 @@ def compare_with_model(R, model_q):
                 R.mismatch("collect:spawned-vs-collected", case,
                            {"spawned": o.get("spawned"), "collected": o.get("collected"), "waited": o.get("waited"), "tasks": o.get("tasks")},
                            {"collected": mod_collected})
-            # `for future in futures: future.result()`: in list order, up to the first that failed; TensorDictFuture: none
+            # `for future in futures: future.result()`: in list order, up to the first that failed — the entry points and,
+            # since the D110 repair, TensorDictFuture.result() alike
             mod_inspected = []
-            if not case.get("return_early"):
-                for i in mod_collected:
-                    mod_inspected.append(i)
-                    if i in mod_err:
-                        break
+            for i in mod_collected:
+                mod_inspected.append(i)
+                if i in mod_err:
+                    break
             if list(o.get("inspected") or []) != mod_inspected:
                 R.mismatch("collect:inspected", case, {"inspected": o.get("inspected"), "collected": o.get("collected")}, {"inspected": mod_inspected})
             R.count("collect:futures-compared", len(flags))
